@@ -1,5 +1,5 @@
 # C01 - SM2 signatures are complete, sound and match GM/T 0003.2.
-#   SM2Toy.tla (exhaustive on a 29-point and a 103-point curve), SM2.tla + SM2Tab.tla (real curve, anchored by the
+#   SM2Toy.tla (exhaustive on a 29-point and a 59-point curve), SM2.tla + SM2Tab.tla (real curve, anchored by the
 #   GM/T 0003.5 Appendix A example), BigNat/ECurve/SM3
 import json
 import os
@@ -13,7 +13,7 @@ N = int(N_HEX, 16)
 STD_D = "3945208f7b2144b13f36e38ac6d39f95889393692860b51a42fb81ef4df7c5b8"
 STD_K = "59276e27d506861a16680f3ad9c02dccef3cc1fa3cdbe4ce6d54b80deac1bc21"
 
-TOYS = {29: dict(P=23, A=1, B=4, N=29, GX=0, GY=2), 103: dict(P=97, A=3, B=2, N=103, GX=0, GY=14)}
+TOYS = {29: dict(P=23, A=1, B=4, N=29, GX=0, GY=2), 59: dict(P=53, A=2, B=1, N=59, GX=0, GY=1)}
 
 
 def toy_cfg(t):
@@ -129,7 +129,7 @@ def run(ctx):
     ctx.tlc("ECurveKAT", "ECurveKAT.cfg", workers=1)
     ncase, nsig = run_toy(ctx, 29, thorough)
     if thorough:
-        a, b = run_toy(ctx, 103, thorough)
+        a, b = run_toy(ctx, 59, thorough)
         ncase += a
         nsig += b
 
